@@ -11,7 +11,7 @@ STEP_RULES = [
     (r'_context\.top\(\)', 'CTX_TOP()', None), (r'_context\.pop\(\);', 'CTX_POP();', None), (r'_context << (\w+);', r'CTX_PUSH(\1);', None),
     # decimal-point patch loop on the buffer (locale): replaced by a stub, must fire twice (NUMBER_EV and NUMBER)
     (r'for\s*\(char\* p = _buffer\.data\(\); \*p; p\+\+\)\s*if \(\*p == \'\.\'\)\s*\{\s*\*p = _ldp;\s*break;\s*\}', 'BUF_FIX_DP();', None),
-    (r'new_number\(ASL_ATOF\(_buffer\)\);', 'new_value();', None), (r'new_number\(myatoiz\(_buffer\)\);', '{ g_int_digits = g_buflen; new_value(); }', None),
+    (r'new_number\(ASL_ATOF\(_buffer\)\);', 'new_value();', None), (r'new_number\(myatoiz\(_buffer\)\);', '{ g_int_digits = g_buflen; VF_MYATOIZ_PRE(); new_value(); }', None),
     (r'new_string\(_buffer\);', '{ g_string_done = 1; new_value(); }', None), (r'new_property\(_buffer\);', '{ g_key_done = 1; new_property(); }', None),
     (r'new_bool\([^;]*\);', 'new_value();', None), (r'put\(Var::NUL\);', 'new_value();', None), (r'begin_object\(_buffer\);', 'begin_object();', None),
     (r'_buffer\s*=\s*"";', 'BUF_CLEAR();', None), (r'_buffer << ch;', 'BUF_APPEND_STR(ch);', None), (r"_buffer << '(\\?.)';", r"BUF_APPEND('\1');", None), (r'_buffer << c;', 'BUF_APPEND(c);', None),
@@ -42,6 +42,8 @@ static bool myisspace(char c) @@isspace@@
 static bool myisalnum(char c) @@isalnum@@
 static int utf16toUtf8(const wchar_t* p, char* u, int n) @@utf16toUtf8@@
 static void BUF_FIX_DP(void) {}
+/* myatoiz (C03: computes in int without overflow checks) is only correct for text whose value fits an int: at most 9 digits after an optional '-' always does */
+#define VF_MYATOIZ_PRE() __CPROVER_assert(g_buflen - ((g_buflen >= 1 && g_buf[0] == '-') ? 1 : 0) <= 9, "integer token handed to myatoiz has at most 9 digits (longer ones must take the double path)")
 unsigned nondet_unsigned(void);
 /* strtoul(t, NULL, 16) on a 4-character buffer (libc, trusted): the value of its hex digits; anything when they are not all hex digits */
 #define HEXV(x) ((x) >= '0' && (x) <= '9' ? (x) - '0' : (x) >= 'a' && (x) <= 'f' ? (x) - 'a' + 10 : (x) >= 'A' && (x) <= 'F' ? (x) - 'A' + 10 : -1)
@@ -174,3 +176,61 @@ void vf_harness(void) { XdlParser* p; XdlParser_value(p); VF_CANARY(); }
     planted=[('value', r'CTX_TOP\(\) == ROOT && ', '')],
 )
 UNITS += [value_unit]
+
+# ---- container close / value placement: XdlParser::put(x) attaches a finished value to the innermost open container, naming it with the pending property name.
+# Ghost model: _lists by (length, type of its top); _props by its length and its top element, a REAL String object (vf_string.h) whose heap text is released by pop();
+# `top[key] = x` reads the key's text (stub KEY_SET), so a key that is used after the pop that destroyed it is a read of freed memory.
+def string_ref_rule(text):
+    """R10 for String locals bound to a stack entry:  `const String& n = E;` -> pointer to the entry;  `String n = E;` -> a copy (String copy constructor contract: own text)"""
+    import re
+    n = 0
+    def ref(m):
+        nonlocal n; n += 1
+        return 'const String* %s = %s;' % (m.group(1), m.group(2))
+    text = re.sub(r'const String&\s*(\w+)\s*=\s*([^;]+);', ref, text)
+    def cp(m):
+        nonlocal n; n += 1
+        return 'String %s_v = STRING_COPY(%s); const String* %s = &%s_v;' % (m.group(1), m.group(2), m.group(1), m.group(1))
+    text = re.sub(r'(?<!const )\bString\s+(\w+)\s*=\s*([^;]+);', cp, text)
+    return text, n
+put_unit = Unit(
+    'XdlParser_put', 'C06',
+    cuts=[Cut('put', X, r'^void XdlParser::put\(const Var& x\)\s*$',
+              rules=[(r'Var& top = _lists\.top\(\);', 'LISTS_TOP();', 1), (r'top\.type\(\)', 'g_top_type', 1), (r'\bVar::ARRAY\b', 'VAR_ARRAY', None), (r'\bVar::OBJ\b', 'VAR_OBJ', None),
+                     (r'top << x;', 'g_appended++;', 1), (r'_props\.top\(\)', 'PROPS_TOP()', None), (r'_props\.pop\(\);', 'PROPS_POP();', None),
+                     string_ref_rule, (r'top\[([^\]]+)\] = x;', r'KEY_SET(\1);', 1)])],
+    text=r'''
+#include "vf_string.h"
+enum { VAR_OTHER = 0, VAR_ARRAY = 1, VAR_OBJ = 2 };
+int g_lists_len, g_top_type, g_props_len, g_appended, g_set, g_key_len; char g_key_first, g_name_first; int g_name_len;
+String* g_prop_top;                      /* the top entry of Stack<String> _props (lives in the stack's storage) */
+#define LISTS_TOP() __CPROVER_assert(g_lists_len >= 1, "Stack::top on an empty value-list stack")
+static const String* PROPS_TOP(void) { __CPROVER_assert(g_props_len >= 1, "Stack::top on an empty property-name stack"); return g_prop_top; }
+/* pop() destroys the entry: ~String releases its heap text (String::free) */
+static void PROPS_POP(void) { __CPROVER_assert(g_props_len >= 1, "Stack::pop on an empty property-name stack"); if (g_prop_top->_size != 0) free(g_prop_top->_str); g_props_len--; }
+/* top[key] = x : Var::operator[](const String&) reads the key's text */
+static void KEY_SET(const String* key) { const char* t = STRP(key); g_key_first = t[0]; g_key_len = key->_len; __CPROVER_assert(t[key->_len] == 0, "key text is NUL-terminated at its length"); g_set++; }
+static String STRING_COPY(const String* s) { String r; r._size = 0; r._len = s->_len < ASL_STR_SPACE ? s->_len : ASL_STR_SPACE - 1; r._space[0] = STRP(s)[0]; r._space[r._len] = 0; return r; }   /* (copy owns its text; only first character and a clipped length are modelled) */
+void XdlParser_put(void)
+__CPROVER_requires(0 <= g_lists_len && g_lists_len <= 1000000 && 0 <= g_props_len && g_props_len <= 1000000 && g_appended == 0 && g_set == 0)
+__CPROVER_requires(__CPROVER_is_fresh(g_prop_top, sizeof(String)) && 1 <= g_prop_top->_len && g_prop_top->_len <= 100000)
+__CPROVER_requires(g_prop_top->_len < ASL_STR_SPACE ? g_prop_top->_size == 0 : (g_prop_top->_size == g_prop_top->_len + 1 && __CPROVER_is_fresh(g_prop_top->_str, g_prop_top->_size)))
+__CPROVER_requires(STRP(g_prop_top)[g_prop_top->_len] == 0 && g_name_first == STRP(g_prop_top)[0] && g_name_len == g_prop_top->_len)
+/* reachable configurations (step invariant): a value list is open; inside an OBJECT a property name is pending */
+__CPROVER_requires(g_lists_len >= 1 && (g_top_type == VAR_OBJ ==> g_props_len >= 1))
+/* array: appended; object: stored under exactly the pending name (read while it is alive), which is then consumed; nothing else */
+__CPROVER_ensures(g_top_type == VAR_ARRAY ==> (g_appended == 1 && g_set == 0 && g_props_len == __CPROVER_old(g_props_len)))
+__CPROVER_ensures(g_top_type == VAR_OBJ ==> (g_set == 1 && g_appended == 0 && g_props_len == __CPROVER_old(g_props_len) - 1 && g_key_first == g_name_first && (g_key_len == g_name_len || g_name_len >= ASL_STR_SPACE)))
+__CPROVER_assigns(g_appended, g_set, g_props_len, g_key_first, g_key_len)
+__CPROVER_frees(g_prop_top->_str)
+@@put@@
+void vf_harness(void) { XdlParser_put(); VF_CANARY(); }
+''',
+    entry='XdlParser_put',
+    desc='XdlParser::put: the finished value goes to the innermost open container; in an object it is stored under the pending property name, whose text (inline or heap, any length) is read '
+         'before the name stack entry is destroyed, and exactly one name is consumed',
+    functions=['XdlParser::put'],
+    trusted=['Var::operator[] / operator<< are stubs (C04 is a separate property); Stack<String>::pop destroys the popped String'],
+    planted=[('put', r'(KEY_SET\(PROPS_TOP\(\)\);)\s*(PROPS_POP\(\);)', r'const String* vf_n = PROPS_TOP(); \2 KEY_SET(vf_n);')],
+)
+UNITS += [put_unit]
